@@ -277,7 +277,14 @@ def check_prims(ctx, rep):
         cmp("constant " + dotted, dotted, getattr(importlib.import_module(mod), attr, None), val)
     rep.extra["prims"] = {"comparisons": n[0], "disagreements": len(bad)}
     rep.count(("prims", n[0]), nontrivial=True, n=n[0])
-    for what, args, got, want in bad[:3]:
+    for what, args, got, want in [b for b in bad if b[0].startswith("read_fully")][:2]:
+        # a py7zr function against its hand model (not a CPython primitive): the case is a concrete input of helpers.read_fully
+        exp, py = (got, want) if "ReadFully" in what else (want, got)       # cmp(model, python) resp. cmp(python, expected)
+        rep.violation("py7zr.helpers.read_fully no longer behaves as the model ReadFully.v (theorems C01_read_fully_*, C05_read_fully_*): "
+                      "%s; case (file length, position, size, blocksize, read schedule) = %r: model/expected %r, Python %r" % (what, args, exp, py),
+                      {"kind": "read_fully", "check": what, "case": repr(args), "expected": repr(exp), "python": repr(py)},
+                      concrete=True, match_keys={"kind": "read_fully"})
+    for what, args, got, want in [b for b in bad if not b[0].startswith("read_fully")][:3]:
         rep.violation("the Gallina definition of the Python primitive %s disagrees with CPython on %r: model %r, CPython %r" % (
             what, args, got, want), {"kind": "prims", "primitive": what, "args": repr(args)}, concrete=False,
             match_keys={"kind": "prims", "primitive": what})
